@@ -243,6 +243,15 @@ func genC11(e *emitter, tier string) {
 	e.emit(opCase("cos-bad", "ConstantOfShape", []Attr{{Name: "value", Type: "t", T: vals("f32", []int{2}, 1, 2)}}, []*TJ{idxT("i64", []int{1}, []int{2})}, nil))
 	e.emit(opCase("cos-bad", "ConstantOfShape", []Attr{{Name: "value", Type: "t", T: vals("f32", []int{}, 1)}}, []*TJ{idxT("i64", []int{1}, []int{2})}, nil))
 	e.emit(opCase("cos-bad", "ConstantOfShape", []Attr{{Name: "valu", Type: "t", T: vals("f32", []int{1}, 1)}}, []*TJ{idxT("i64", []int{1}, []int{2})}, nil))
+	// a value tensor that cannot be decoded (element count against its dims; element types the library cannot
+	// represent are the matter of C12 and its recorded finding): the node is refused, the default value never
+	// takes its place
+	for _, bad := range []*TJ{vals("f32", []int{2}, 1), vals("f32", []int{1}, 1, 2), vals("i64", []int{3}, 1, 2), vals("i32", []int{1, 1}, 1, 2, 3),
+		vals("f64", []int{1}), vals("u8", []int{2, 2}, 1, 2, 3)} {
+		for _, raw := range []bool{false, true} {
+			e.emit(opCase("cos-undecodable", "ConstantOfShape", []Attr{{Name: "value", Type: "t", T: bad, Raw: raw}}, []*TJ{idxT("i64", []int{2}, []int{2, 3})}, nil))
+		}
+	}
 	e.emit(opCase("cos-bad", "ConstantOfShape", nil, []*TJ{idxT("i64", []int{2}, []int{2, 0})}, nil))
 	e.emit(opCase("cos-bad", "ConstantOfShape", nil, []*TJ{idxT("i64", []int{2}, []int{-1, 2})}, nil))
 	e.emit(opCase("cos-bad", "ConstantOfShape", nil, []*TJ{idxT("i64", []int{}, []int{3})}, nil))
